@@ -1,7 +1,7 @@
 #!/bin/sh
 # tools/try_tie.sh <psi|filters|packet|pes|iters|pmt|tables> <repo-dir>: translate <repo-dir>/src with the statement translator
 # into a private directory and check its tie module against it (nothing under /verif/lean is written).
-K=$1; R=${2:-/repo}
+K=$1; R=${2:-/repo}; TIE2=
 case $K in
   psi) TOOL=gen_psi.py; VAR=VERIF_GEN_PSI_OUT; GEN=PsiGen; TIE=StmtPsi;;
   filters) TOOL=gen_filters.py; VAR=VERIF_GEN_FILTERS_OUT; GEN=FiltersGen; TIE=StmtFilters;;
@@ -9,7 +9,7 @@ case $K in
   pes) TOOL=gen_pes.py; VAR=VERIF_GEN_PES_OUT; GEN=PesGen; TIE=StmtPes;;
   iters) TOOL=gen_iters.py; VAR=VERIF_GEN_ITERS_OUT; GEN=ItersGen; TIE=StmtIters;;
   pmt) TOOL=gen_pmt.py; VAR=VERIF_GEN_PMT_OUT; GEN=PmtGen; TIE=StmtPmt;;
-  tables) TOOL=gen_tables.py; VAR=VERIF_GEN_TABLES_OUT; GEN=TablesGen; TIE=StmtTables;;
+  tables) TOOL=gen_tables.py; VAR=VERIF_GEN_TABLES_OUT; GEN=TablesGen; TIE=StmtTables; TIE2=StmtTablesPmt;;
   *) echo "usage: try_tie.sh psi|filters|packet|pes|iters|pmt|tables <repo>"; exit 2;;
 esac
 T=$(mktemp -d /tmp/tietry.XXXXXX)
@@ -19,7 +19,7 @@ for f in /verif/lean/.lake/build/lib/lean/Ts.*; do ln -s $f $T/lib/; done
 rm -f $T/lib/Ts/Gen/$GEN.* $T/lib/Ts/Props/Ties/$TIE.*
 env VERIF_REPO=$R $VAR=$T/$GEN.lean python3 /verif/tools/$TOOL 2>$T/err
 if grep -q "could not extract" $T/err; then echo "FALLBACK: $(cat $T/err | cut -c1-200)"; else echo TRANSLATED; fi
-if (cd $T && LEAN_PATH=$T/lib lean -o $T/lib/Ts/Gen/$GEN.olean $GEN.lean) > $T/gen.log 2>&1 && (cd /verif/lean && LEAN_PATH=$T/lib lean Ts/Props/Ties/$TIE.lean) > $T/tie.log 2>&1; then
+if (cd $T && LEAN_PATH=$T/lib lean -o $T/lib/Ts/Gen/$GEN.olean $GEN.lean) > $T/gen.log 2>&1 && (cd /verif/lean && LEAN_PATH=$T/lib lean -o $T/lib/Ts/Props/Ties/$TIE.olean Ts/Props/Ties/$TIE.lean) > $T/tie.log 2>&1 && { [ -z "$TIE2" ] || { rm -f $T/lib/Ts/Props/Ties/$TIE2.*; (cd /verif/lean && LEAN_PATH=$T/lib lean Ts/Props/Ties/$TIE2.lean) >> $T/tie.log 2>&1; }; }; then
   echo TIE-OK
 else
   echo TIE-BROKEN; cat $T/gen.log $T/tie.log 2>/dev/null | grep -h "error" | head -4
